@@ -371,49 +371,68 @@ server's format `cl->translateFn` is rfbTranslateNone, i.e. these bytes are sent
 def pxBytes (bpp : Nat) (p : Px) : List UInt8 :=
   (List.range bpp).map fun k => UInt8.ofNat (p / 2 ^ (8 * k))
 
-/-- rfbSendCursorShape: the (possibly converted) cursor and the bytes appended to the update
-buffer.  `none`: a conversion failed (NULL bitmap) or the cursor does not fit `UPDATE_BUF_SIZE`
-(the `return FALSE; /* FIXME */` path, excluded: see `shape_fits`). -/
-def cursorShapeRect (v : Variant) (s : Screen) (useRich : Bool) : Option (Screen × List UInt8) :=
+/-- the on-demand conversion at the top of rfbSendCursorShape (it mutates the cursor):
+RichCursor clients need `richSource`, XCursor clients need `source` -/
+def convertFor (v : Variant) (f : Format) (bpp : Nat) (useRich : Bool) (c0 : Cursor) : Option Cursor :=
+  if useRich then
+    match c0.rich with
+    | some _ => some c0
+    | none => (makeRichPixels v f bpp c0).map fun r => { c0 with rich := some r }
+  else
+    match c0.source with
+    | some _ => some c0
+    | none => makeXFromRich f bpp c0
+
+/-- `width == 1 && height == 1 && mask[0] == 0`: "no cursor" -/
+def isEmptyCursor (c : Cursor) : Option Bool :=
+  if c.w = 1 ∧ c.h = 1 then (c.mask[0]?).map (· == 0) else some false
+
+/-- the payload after the rectangle header: XCursor — colours, bitmap, mask; RichCursor — pixels
+(client format = server format: sent as they are), mask -/
+def shapePayload (bpp : Nat) (useRich : Bool) (c : Cursor) : Option (List UInt8) :=
+  let maskBytes := rowBytes c.w * c.h
+  (tabulate? maskBytes fun k => c.mask[k]?).bind fun (mk : Array UInt8) =>
+  if useRich then
+    match c.rich with
+    | none => none
+    | some rich =>
+      (tabulate? (c.w * c.h) fun k => rich[k]?).map fun (px : Array Px) =>
+        px.toList.flatMap (pxBytes bpp) ++ mk.toList
+  else
+    match c.source with
+    | none => none
+    | some src =>
+      (tabulate? maskBytes fun k => src[k]?).map fun (sb : Array UInt8) =>
+        [UInt8.ofNat (c.foreR / 256), UInt8.ofNat (c.foreG / 256), UInt8.ofNat (c.foreB / 256),
+         UInt8.ofNat (c.backR / 256), UInt8.ofNat (c.backG / 256), UInt8.ofNat (c.backB / 256)]
+        ++ sb.toList ++ mk.toList
+
+/-- does the cursor rectangle fit the update buffer right after the FramebufferUpdate header?
+(otherwise the code flushes and, if it still does not fit, takes `return FALSE; /* FIXME */`) -/
+def shapeFits (bpp : Nat) (useRich : Bool) (c : Cursor) : Bool :=
+  let maskBytes := rowBytes c.w * c.h
+  let dataBytes := if useRich then c.w * c.h * bpp else maskBytes
+  sz_rfbFramebufferUpdateMsg + sz_rfbFramebufferUpdateRectHeader + sz_rfbXCursorColors
+    + maskBytes + dataBytes ≤ UPDATE_BUF_SIZE
+
+/-- rfbSendCursorShape on the screen's cursor: the (possibly converted) cursor and the bytes
+appended to the update buffer.  `none`: a conversion failed (NULL bitmap) or the cursor does not
+fit (`shapeFits`, excluded: see `shape_fits`). -/
+def shapeCore (v : Variant) (f : Format) (bpp : Nat) (cur : Option Cursor) (useRich : Bool) :
+    Option (Option Cursor × List UInt8) :=
   let enc := if useRich then encRichCursor else encXCursor
-  match s.cursor with
-  | none => some (s, rectHeader 0 0 0 0 enc)
+  match cur with
+  | none => some (none, rectHeader 0 0 0 0 enc)
   | some c0 =>
-    -- on-demand conversion (mutates the cursor)
-    (if useRich then
-        match c0.rich with
-        | some _ => some c0
-        | none => (makeRichPixels v s.fmt s.bpp c0).map fun r => { c0 with rich := some r }
-      else
-        match c0.source with
-        | some _ => some c0
-        | none => makeXFromRich s.fmt s.bpp c0).bind fun c =>
-    let s' := { s with cursor := some c }
-    -- `width == 1 && height == 1 && mask[0] == 0`: "no cursor"
-    (if c.w = 1 ∧ c.h = 1 then (c.mask[0]?).map (· == 0) else some false).bind fun isEmpty =>
-      if isEmpty then some (s', rectHeader 0 0 0 0 enc)
-      else
-        let maskBytes := rowBytes c.w * c.h
-        let dataBytes := if useRich then c.w * c.h * s.bpp else maskBytes
-        if sz_rfbFramebufferUpdateMsg + sz_rfbFramebufferUpdateRectHeader + sz_rfbXCursorColors
-            + maskBytes + dataBytes > UPDATE_BUF_SIZE then none
-        else
-          let hdr := rectHeader c.xhot c.yhot c.w c.h enc
-          (tabulate? maskBytes fun k => c.mask[k]?).bind fun (mk : Array UInt8) =>
-          if useRich then
-            match c.rich with
-            | none => none
-            | some rich =>
-              (tabulate? (c.w * c.h) fun k => rich[k]?).map fun (px : Array Px) =>
-                (s', hdr ++ px.toList.flatMap (pxBytes s.bpp) ++ mk.toList)
-          else
-            match c.source with
-            | none => none
-            | some src =>
-              (tabulate? maskBytes fun k => src[k]?).map fun (sb : Array UInt8) =>
-                (s', hdr ++ [UInt8.ofNat (c.foreR / 256), UInt8.ofNat (c.foreG / 256), UInt8.ofNat (c.foreB / 256),
-                             UInt8.ofNat (c.backR / 256), UInt8.ofNat (c.backG / 256), UInt8.ofNat (c.backB / 256)]
-                      ++ sb.toList ++ mk.toList)
+    (convertFor v f bpp useRich c0).bind fun c =>
+    (isEmptyCursor c).bind fun isEmpty =>
+      if isEmpty then some (some c, rectHeader 0 0 0 0 enc)
+      else if !shapeFits bpp useRich c then none
+      else (shapePayload bpp useRich c).map fun pl =>
+        (some c, rectHeader c.xhot c.yhot c.w c.h enc ++ pl)
+
+def cursorShapeRect (v : Variant) (s : Screen) (useRich : Bool) : Option (Screen × List UInt8) :=
+  (shapeCore v s.fmt s.bpp s.cursor useRich).map fun (c', m) => ({ s with cursor := c' }, m)
 
 /-- rfbSendCursorPos -/
 def cursorPosRect (s : Screen) : List UInt8 := rectHeader s.curX s.curY 0 0 encPointerPos
